@@ -45,6 +45,21 @@ def _is_on_step_grid(value: Union[int, float], min_: Union[int, float], step: Un
         return False  # NaN and infinity are never on the grid
 
 
+def _adapt_integral_value(value: Any, integer: Any) -> Any:
+    # JSON does not distinguish 5 from 5.0 or 1e1 from 10; a port accepting only integers takes an integral number,
+    # however written, as the integer it denotes
+    if integer and isinstance(value, float):
+        try:
+            exact_value = _exact(value)
+        except (ValueError, OverflowError):
+            return value  # NaN, infinity
+
+        if exact_value.denominator == 1:
+            return int(exact_value)
+
+    return value
+
+
 async def add_virtual_port(attrs: GenericJSONDict) -> core_ports.BasePort:
     id_ = attrs['id']
     type_ = attrs['type']
@@ -336,13 +351,13 @@ async def patch_port_value(request: core_api.APIRequest, port_id: str, params: P
     if port is None:
         raise core_api.APIError(404, 'no-such-port')
 
+    value = _adapt_integral_value(params, await port.get_attr('integer'))
+
     try:
-        core_api_schema.validate(params, await port.get_value_schema())
+        core_api_schema.validate(value, await port.get_value_schema())
     except core_api.APIError:
         # Transform any validation error into an invalid-field APIError for value
         raise core_api.APIError(400, 'invalid-value') from None
-
-    value = params
 
     # Step validation; choices, when present, define the accepted values on their own (see get_value_schema())
     step = await port.get_attr('step')
@@ -388,7 +403,8 @@ async def patch_port_sequence(request: core_api.APIRequest, port_id: str, params
 
     core_api_schema.validate(params, core_api_schema.PATCH_PORT_SEQUENCE)
 
-    values = params['values']
+    integer = await port.get_attr('integer')
+    values = [_adapt_integral_value(v, integer) for v in params['values']]
     delays = params['delays']
     repeat = params['repeat']
 
